@@ -51,7 +51,13 @@ class CompMixin:
         for v in n['inputs']:
             self.add_input(v['name'], np.ones(v['size']), units=v['units'])
         for v in n['outputs']:
-            self.add_output(v['name'], np.ones(v['size']), units=v['units'])
+            scal = {}
+            for k in ('ref', 'ref0', 'res_ref'):       # only the C02 solve cases scale the outputs
+                if v.get(k) is not None:
+                    x = v[k]
+                    scal[k] = np.array([float(Fraction(*e['q'])) if isinstance(e, dict) else float(e) for e in x]) \
+                        if isinstance(x, list) else (float(Fraction(*x['q'])) if isinstance(x, dict) else float(x))
+            self.add_output(v['name'], np.ones(v['size']), units=v['units'], **scal)
         for p in n['partials']:
             nr, nc = sz[p['of']], sz[p['wrt']]
             k = p['kind']
@@ -114,7 +120,7 @@ class Ext(om.ExplicitComponent):
         pass
 
 
-def build(case, jt, mode):
+def build(case, jt, mode, solver=None):
     p = om.Problem()
     p.model.add_subsystem('ext', Ext(case['ext']))
     g = p.model.add_subsystem('g', om.Group())
@@ -128,7 +134,11 @@ def build(case, jt, mode):
             tgt = 'g.%s.%s' % (n['name'], i['name'])
             src = i['src'] if i['src'].startswith('ext.') else 'g.' + i['src']
             p.model.connect(src, tgt, src_indices=i['src_indices'])
-    if jt:
+    if solver is not None:
+        g.linear_solver = solver()
+        if jt:
+            g.options['assembled_jac_type'] = jt
+    elif jt:
         g.linear_solver = om.ScipyKrylov(assemble_jac=True)
         g.options['assembled_jac_type'] = jt
     p.setup(mode=mode, force_alloc_complex=True)
